@@ -863,6 +863,43 @@ func c14(c *Ctx) {
 								}
 							}
 						})
+						// ... or the decompression is an optional step: on the branch where the entry's function is nil
+						// no dynamic call is made before the success return
+						eachInstr(rb, func(in ssa.Instruction) {
+							ifi, isIf := in.(*ssa.If)
+							if !isIf {
+								return
+							}
+							cmp, isCmp := ifi.Cond.(*ssa.BinOp)
+							if !isCmp || (cmp.Op != token.NEQ && cmp.Op != token.EQL) || !isNilConst(cmp.Y) || !isFuncField(cmp.X) {
+								return
+							}
+							nilSucc := ifi.Block().Succs[1]
+							if cmp.Op == token.EQL {
+								nilSucc = ifi.Block().Succs[0]
+							}
+							calls := feasiblyReaches(ifi.Block(), nilSucc, nil, nil, func(x ssa.Instruction) bool {
+								cc, ok := x.(ssa.CallInstruction)
+								if !ok {
+									return false
+								}
+								if !cc.Common().IsInvoke() && staticCallee(cc) == nil {
+									return true // a dynamic call (the decompressor)
+								}
+								return strings.HasPrefix(calleeName(cc), Mod+"/pkg/web.DecompressWith")
+							})
+							okRet := feasiblyReaches(ifi.Block(), nilSucc, nil, nil, func(x ssa.Instruction) bool {
+								rt, isR := x.(*ssa.Return)
+								if !isR || len(rt.Results) != 2 {
+									return false
+								}
+								code, isC := constInt(rt.Results[1])
+								return isC && code == 0 && !isNilConst(rt.Results[0])
+							})
+							if !calls && okRet {
+								tableIdentity = true
+							}
+						})
 					}
 				}
 			}
